@@ -483,6 +483,61 @@ add("attribute_blocks_sorted_by_first_component", (SER, "    for label, attrs in
 add("attribute_blocks_sorted_descending", (SER, "    for label, attrs in sorted(m.nodes(data=True)):", "    for label, attrs in sorted(m.nodes(data=True), key=lambda item: item[0], reverse=True):"), fires={"R-LAYOUT"})
 
 
+_REFINE_OLD = """    while True:
+        m_refined = partition_molecule_by_attribute(m, PARTITION)
+
+        if get_number_of_partitions(m_refined) == get_number_of_partitions(m):
+            # No more refinement possible.
+            yield m_refined
+            return
+
+        m = m_refined
+"""
+_REFINE_CARRIED = """    n_partitions = None
+
+    while True:
+        m_refined = partition_molecule_by_attribute(m, PARTITION)
+        n_partitions_refined = get_number_of_partitions(m_refined)
+        if n_partitions is None:
+            n_partitions = get_number_of_partitions(m)
+
+        if n_partitions_refined == n_partitions:
+            yield m_refined
+            return
+
+        %s
+"""
+add("refinement_count_carried_over", (CAN, _REFINE_OLD, _REFINE_CARRIED % "m, n_partitions = m_refined, n_partitions_refined"), silent=True,
+    note="the class count of the current partition is kept from the previous round instead of being recomputed (from a round of small behaviour-preserving edits)")
+add("refinement_count_carried_over_stale", (CAN, _REFINE_OLD, _REFINE_CARRIED % "m = m_refined"), fires={"R-FIXPOINT"},
+    note="the kept count is never updated: later rounds compare with the count of the first partition")
+_REFINE_ROUNDS = """    rounds = 0
+    while True:
+        m_refined = partition_molecule_by_attribute(m, PARTITION)
+        rounds += 1
+
+        is_stable = get_number_of_partitions(m_refined) == get_number_of_partitions(m)
+        if is_stable or rounds == max_rounds:
+            yield m_refined
+            return
+
+        m = m_refined
+"""
+add("refinement_round_limit_off_by_default", [(CAN, "def refine_partitions(m: nx.Graph) -> Generator[nx.Graph, None, None]:", "def refine_partitions(m: nx.Graph, max_rounds=None) -> Generator[nx.Graph, None, None]:"),
+    (CAN, _REFINE_OLD, _REFINE_ROUNDS)], silent=True, note="an optional round limit that no caller passes and that is None by default")
+add("refinement_round_limit_three", [(CAN, "def refine_partitions(m: nx.Graph) -> Generator[nx.Graph, None, None]:", "def refine_partitions(m: nx.Graph, max_rounds=3) -> Generator[nx.Graph, None, None]:"),
+    (CAN, _REFINE_OLD, _REFINE_ROUNDS)], fires={"R-FIXPOINT"}, note="the same with a default of three rounds")
+add("parser_index_validator_as_assert", (PAR, """        if index >= len(self._atoms):
+            raise TucanParserException(f"Atom with index {index + 1} does not exist.")""",
+    """        assert index < len(self._atoms), f"Atom with index {index + 1} does not exist.\""""), fires={"R-ESCAPE", "R-ORDERING", "R-LISTENSAMPLE"},
+    note="a dangling index ends in AssertionError (shown on a sample string)")
+add("permutation_enforce_test_in_helper", [(GU, "    enforce_permutation = m.number_of_edges() > 1 and nx.density(m) != 1\n    if enforce_permutation:", "    if _can_enforce(m):"),
+    (GU, "def _permute_molecule(m: nx.Graph) -> nx.Graph:", "def _can_enforce(m: nx.Graph) -> bool:\n    return m.number_of_edges() > 1 and nx.density(m) != 1\n\n\ndef _permute_molecule(m: nx.Graph) -> nx.Graph:")],
+    silent=True)
+add("permutation_enforce_test_in_helper_too_strict", [(GU, "    enforce_permutation = m.number_of_edges() > 1 and nx.density(m) != 1\n    if enforce_permutation:", "    if _can_enforce(m):"),
+    (GU, "def _permute_molecule(m: nx.Graph) -> nx.Graph:", "def _can_enforce(m: nx.Graph) -> bool:\n    return m.number_of_edges() > 2 and nx.density(m) != 1\n\n\ndef _permute_molecule(m: nx.Graph) -> nx.Graph:")],
+    fires={"R-RETRY"})
+
 add("v3000_endpts_search_untested", (V3, """    if endpts_match is None:
         # silently ignore everything that has no ENDPTS (e.g. use of star atoms in polymers)
         return []
